@@ -123,7 +123,7 @@ def check_stdout_in_loops(rep, fm):
             m = {}
             for r in res:
                 for k in (0, 1):
-                    m[Op("unpack", r, Const(k))] = Const("")
+                    m[Op("getitem", r, Const(k))] = Const("")
                 m[r] = Const("")
             g0 = subst(g, m)
             ok = g0 == FALSE or unsat(g0)[0]
@@ -221,7 +221,7 @@ def check_walks(rep, fm):
             # only the files component (index 2) of the walk tuple may be iterated
     for L in fm.I.loops.values():
         it = fm.norm(L.iter) if L.iter is not None else None
-        if isinstance(it, Op) and it.op == "unpack" and isinstance(it.args[0], Op) and it.args[0].op == "elem" and \
+        if isinstance(it, Op) and it.op == "getitem" and isinstance(it.args[0], Op) and it.args[0].op == "elem" and \
                 isinstance(it.args[0].args[0], Op) and it.args[0].args[0].op == "call:os.walk":
             rep.check(it.args[1] == Const(2), rule, "%s iterates the files of the walk entry, not its sub-directories" % L.func.split(".")[-1],
                       L.func, L.node, "loop iterates component %r of the os.walk entry (sub-directories would be opened as PELs)" % (it.args[1],), node=L.node)
